@@ -19,7 +19,11 @@ KEYS = [0, 1, 2, 3, 4, "a", "b", "c", "d", "e", 1.0, True,
 NKEYS_NORMAL = 17
 VALS = [0, 1, 2, 3, "x", "y", 1.0, True, (1, 2), (1, 2.0), None, "x"]
 NAMES = ["a", "b", "c", "d", "e", "f_g", "h", "pop", "copy", "_inc", "__x",
-         ""]      # the empty string is a name like any other
+         "",      # the empty string is a name like any other
+         # names that are not in Unicode NFKC normal form, next to the name
+         # each of them normalises to: the micro sign / Greek mu, the "fi"
+         # ligature / "fi" - four different names, four different attributes
+         u"\u00b5", u"\u03bc", u"\ufb01lt", u"filt"]
 # "pop" / "copy" collide with dict methods: the instance attribute must still
 # be the strategy.  (Names the harness itself calls - keys, key2keys,
 # value2keys, strategy, default - are not used as strategy names.)
